@@ -55,7 +55,7 @@ theorem tr2_wf (p : Prog) (c : CProg) (ht : tr2 p = .ok c)
 /-- `Closed` is not vacuous and `tr` accepts such programs -/
 example : ∃ p c, Closed p = true ∧ tr p = .ok c ∧ c.globals.length = 2 := by
   refine ⟨⟨.seq (.assign "a" (.int 1)) (.seq (.assign "b" (.bin .add (.var "a") (.int 1))) (.forRange "i" (.var "b") (.write (.var "i")))),
-    some (.aug "a" .add (.var "b"))⟩, ?_⟩
+    some (.aug "a" .add (.var "b")), []⟩, ?_⟩
   exact ⟨_, by decide +kernel, rfl, by decide +kernel⟩
 
 /-- (W5) tuple assignments: the temporaries `__tmp_assign_N` are block-scoped locals — two in `setup()`, three in the `for` body, two
@@ -66,19 +66,19 @@ example : ∃ p c, Closed p = true ∧ tr p = .ok c ∧ wf c = true ∧ blockDec
             (.seq (.tuple 0 ["a", "b"] [.var "b", .bin .add (.var "a") (.var "b")])
              (.forRange "i" (.int 2)
                 (.tuple 2 ["a", "b", "f"] [.var "b", .bin .add (.var "a") (.int 1), .cmp .lt (.var "a") (.var "b")]))))),
-        some (.seq (.tuple 5 ["a", "b"] [.var "b", .bin .add (.var "a") (.var "b")]) (.write (.var "a")))⟩, ?_⟩
+        some (.seq (.tuple 5 ["a", "b"] [.var "b", .bin .add (.var "a") (.var "b")]) (.write (.var "a"))), []⟩, ?_⟩
   exact ⟨_, by decide +kernel, rfl, by decide +kernel, by decide +kernel, by decide +kernel⟩
 
 /-- a sketch that declares the same temporary twice in one block, or reads one before its declaration, is not well-formed -/
-example : wf ⟨[("a", .int, .int 0)], .seq (.ctuple 0 [.int] ["a"] [.var "a"]) (.ctuple 0 [.int] ["a"] [.var "a"]), .skip⟩ = false ∧
-    wf ⟨[("a", .int, .int 0)], .ctuple 0 [.int, .int] ["a", "a"] [.var "__tmp_assign_1", .var "a"], .skip⟩ = false ∧
-    wf ⟨[("a", .int, .int 0)], .seq (.ctuple 0 [.int] ["a"] [.var "a"]) (.ctuple 1 [.int] ["a"] [.var "__tmp_assign_0"]), .skip⟩ = true := by
+example : wf ⟨[("a", .int, .int 0)], .seq (.ctuple 0 [.int] ["a"] [.var "a"]) (.ctuple 0 [.int] ["a"] [.var "a"]), .skip, []⟩ = false ∧
+    wf ⟨[("a", .int, .int 0)], .ctuple 0 [.int, .int] ["a", "a"] [.var "__tmp_assign_1", .var "a"], .skip, []⟩ = false ∧
+    wf ⟨[("a", .int, .int 0)], .seq (.ctuple 0 [.int] ["a"] [.var "a"]) (.ctuple 1 [.int] ["a"] [.var "__tmp_assign_0"]), .skip, []⟩ = true := by
   decide +kernel
 
 /-- Python keeps the loop variable after the loop; the sketch's `int i` is gone: the script runs in Python (no
     NameError), is accepted, and does not compile -/
 theorem loop_var_after_loop_counterexample :
-    let p : Prog := ⟨.seq (.forRange "i" (.int 3) .skip) (.write (.var "i")), none⟩
+    let p : Prog := ⟨.seq (.forRange "i" (.int 3) .skip) (.write (.var "i")), none, []⟩
     (∃ t, Py.run p 0 100 = .ok t) ∧ (∃ c, tr p = .ok c ∧ wf c = false) := by
   exact ⟨⟨_, rfl⟩, ⟨_, rfl, by decide +kernel⟩⟩
 
@@ -97,7 +97,7 @@ theorem render_balanced (c : CProg) : kdepth 0 (c.klines.map (·.2.1)) = some 0 
 
 /-- the brace kind is what the text shows, for sketches whose identifiers are identifiers -/
 theorem kind_matches_text_example :
-    let c : CProg := ⟨[("a", .int, .int 1)], .ifs (.cmp .lt (.var "a") (.int 2)) (.write (.var "a")) (.sleep (.int 1)), .whileLoop (.bool true) .brk⟩
+    let c : CProg := ⟨[("a", .int, .int 1)], .ifs (.cmp .lt (.var "a") (.int 2)) (.write (.var "a")) (.sleep (.int 1)), .whileLoop (.bool true) .brk, []⟩
     c.klines.all (fun l => (l.2.1 == LK.open_) == l.2.2.endsWith "{" && (l.2.1 == LK.close) == l.2.2.startsWith "}") = true := by
   decide +kernel
 
